@@ -36,7 +36,7 @@ def cFull (b : Compose.Session) : String :=
   let res := if s.b.result.isEmpty then "-" else hexOf s.b.result
   let ps := s.b.positions.reverse.map (fun p => s!"{p.move}:{p.hashOf.toNat}")
   let ms := s.b.moves.reverse.map fmtMove
-  let notes := match s.fpa with
+  let notes := if s.dead.isSome then "-" else match s.fpa with
     | none => "-"
     | some (_, r) =>
       s!"bp={r.blackPlaceX},{r.blackPlaceY};wp={r.whitePlaceX},{r.whitePlaceY};bt={r.blackTmpX},{r.blackTmpY};wt={r.whiteTmpX},{r.whiteTmpY}"
